@@ -56,6 +56,9 @@ N = {'quick': 800, 'thorough': 8000}
 
 TABLES = {'t1': 'int1', 't2': 'int1', 't3': 'int2', 't4': 'int2'}
 MODELS = {'pred': ['y'], 'pred2': None, 'pred3': 'Y', 'pred4': [], 'pred5': ['y', 'z']}          # name -> to_predict
+# the models of the same names in a second project: every target of one twin is an ordinary input of the other
+MODELS2 = {'pred': ['z'], 'pred2': 'y', 'pred3': None, 'pred4': ['Y'], 'pred5': ['z']}
+PROJECT2 = 'proj2'
 CATALOGS = ('list', 'legacy', 'default-proj', 'default-int1', 'dicts')
 CMP = ('=', '!=', '<', '>', '<=', '>=')
 
@@ -66,15 +69,17 @@ def project_of(cat):
 
 def catalog(cat):
     """Fresh planner keyword arguments (the planner writes into the metadata dicts)."""
-    def meta(name):
+    def meta(name, models=MODELS):
         d = {}
-        if MODELS[name] is not None:
-            d['to_predict'] = copy.deepcopy(MODELS[name])
+        if models[name] is not None:
+            d['to_predict'] = copy.deepcopy(models[name])
         return d
     if cat == 'legacy':
-        return dict(integrations=['int1', 'int2'], predictor_namespace='mindsdb',
-                    predictor_metadata={n: meta(n) for n in MODELS})
+        md = {n: meta(n) for n in MODELS}
+        md.update({PROJECT2 + '.' + n: meta(n, MODELS2) for n in MODELS2})          # key 'project.name'
+        return dict(integrations=['int1', 'int2'], predictor_namespace='mindsdb', predictor_metadata=md)
     lst = [dict(meta(n), name=n, integration_name='proj') for n in MODELS]
+    lst += [dict(meta(n, MODELS2), name=n, integration_name=PROJECT2) for n in MODELS2]
     if cat == 'list':
         return dict(integrations=['int1', 'int2'], default_namespace='mindsdb', predictor_metadata=lst)
     if cat == 'default-proj':
@@ -84,7 +89,8 @@ def catalog(cat):
     if cat == 'dicts':
         return dict(integrations=[{'name': 'int1', 'class_type': 'sql', 'type': 'data'},
                                   {'name': 'int2', 'class_type': 'sql', 'type': 'data'},
-                                  {'name': 'proj', 'class_type': 'project', 'type': 'project'}],
+                                  {'name': 'proj', 'class_type': 'project', 'type': 'project'},
+                                  {'name': PROJECT2, 'class_type': 'project', 'type': 'project'}],
                     default_namespace='mindsdb', predictor_metadata=lst)
     raise ValueError(cat)
 
@@ -124,8 +130,10 @@ class Q:
             if i['k'] == 'model':
                 if i['name'] not in MODELS:
                     return 'unknown model'
-                if not i.get('qualified', True) and self.cat != 'default-proj':
+                if not i.get('qualified', True) and (self.cat != 'default-proj' or i.get('project')):
                     return 'unqualified model'
+                if i.get('project') not in (None, 2):
+                    return 'unknown project'
             else:
                 if i['name'] not in TABLES:
                     return 'unknown table'
@@ -145,8 +153,21 @@ class Q:
         return None
 
     # -- names
+    def project_name(self, idx):
+        return PROJECT2 if self.items[idx].get('project') else self.proj
+
+    def to_predict(self, idx):
+        i = self.items[idx]
+        return (MODELS2 if i.get('project') else MODELS)[i['name']]
+
+    def twins(self):
+        """Pairs of model items that have the same name in different projects."""
+        ms = [k for k, i in enumerate(self.items) if i['k'] == 'model']
+        return [(a, b) for a in ms for b in ms if a < b and self.items[a]['name'] == self.items[b]['name']
+                and bool(self.items[a].get('project')) != bool(self.items[b].get('project'))]
+
     def targets_of(self, idx):
-        t = MODELS[self.items[idx]['name']]
+        t = self.to_predict(idx)
         if t is None:
             return []
         return [x.lower() for x in (t if isinstance(t, list) else [t])]
@@ -166,7 +187,7 @@ class Q:
     def written_parts(self, idx):
         i = self.items[idx]
         if i['k'] == 'model':
-            p = ([self.proj] if i.get('qualified', True) else []) + [i['name']]
+            p = ([self.project_name(idx)] if i.get('qualified', True) else []) + [i['name']]
             if i.get('version') is not None:
                 p.append(str(i['version']))
             return p
@@ -242,6 +263,8 @@ class Q:
             return self.const_text(o['const'])
         if 'tuple' in o:
             return '(' + ', '.join(self.const_text(v) for v in o['tuple']) + ')'
+        if 'list' in o:
+            return '(' + ', '.join(self.operand_text(x) for x in o['list']) + ')'
         if 'fn' in o:
             return o['fn'] + '(' + self.operand_text(o['x']) + ')'
         if 'arith' in o:
@@ -318,6 +341,8 @@ def operand_abs(o):
         return c_abs(o['const'])
     if 'tuple' in o:
         return ('tuple',) + tuple(c_abs(v) for v in o['tuple'])
+    if 'list' in o:
+        return ('tuple',) + tuple(operand_abs(x) for x in o['list'])
     if 'fn' in o:
         return ('fn', o['fn'].lower(), operand_abs(o['x']))
     if 'arith' in o:
@@ -433,6 +458,8 @@ def operand_items(o, out):
     for k in ('x', 'y'):
         if k in o and isinstance(o[k], dict):
             operand_items(o[k], out)
+    for x in o.get('list', ()):
+        operand_items(x, out)
     return out
 
 
@@ -449,6 +476,8 @@ def inner_ops(o, out):
     for k in ('x', 'y'):
         if k in o and isinstance(o[k], dict):
             inner_ops(o[k], out)
+    for x in o.get('list', ()):
+        inner_ops(x, out)
     return out
 
 
@@ -537,8 +566,10 @@ def judge(case, col):
         gfeats.append('names:shared-suffix')
     if any(it.get('schema') for it in items):
         gfeats.append('table:schema-named-like-project')
-    if any(it['k'] == 'model' and MODELS[it['name']] == [] for it in items):
+    if any(it['k'] == 'model' and q.to_predict(i) == [] for i, it in enumerate(items)):
         gfeats.append('to_predict:empty-list')
+    if q.twins():
+        gfeats.append('models:same-name-two-projects')
     models = [i for i, it in enumerate(items) if it['k'] == 'model']
     model_first = items[0]['k'] == 'model'
     if model_first and len(items) > 2:
@@ -568,18 +599,53 @@ def judge(case, col):
             arg_groups.setdefault((o['of'], o['col']), []).append(c_abs(k['const']))
     dup_cols = {k: v for k, v in arg_groups.items() if len(set(v)) > 1}
 
+    # the ON clause a model sees (model first: the one written at the table): column mappings and constant equalities
+    def own_join(mi):
+        return 1 if model_first else mi
+    map_groups, on_args = {}, {}          # (model, column as written) -> [(atom id, mapped column)];  atom id -> (model, col, const)
+    for mi in models:
+        for a, c in on_atoms[own_join(mi)]:
+            if c != 'top' or a['op'] != '=' or len(a['args']) != 2:
+                continue
+            l, r = a['args']
+            if 'col' in l and 'col' in r:
+                if l['of'] == mi and r['of'] != mi:
+                    map_groups.setdefault((mi, l['col']), []).append((a['id'], ('col', r['of'], r['col'])))
+                elif r['of'] == mi and l['of'] != mi:
+                    map_groups.setdefault((mi, r['col']), []).append((a['id'], ('col', l['of'], l['col'])))
+            elif classify(a, q) in ('marg', 'mrev', 'mtarget2') and arg_of(a)[0]['of'] == mi:
+                on_args[a['id']] = (mi, arg_of(a)[0]['col'], arg_of(a)[1]['const'], classify(a, q))
+    dup_maps = {k: v for k, v in map_groups.items() if len({x for _, x in v}) > 1}
+
     classes = ['catalog:' + q.cat, 'aliases:' + cfg['aliases'], f'data-items:{len(items) - len(models)}',
                f'models:{len(models)}'] + gfeats
     if dup_cols:
         classes.append('where:duplicate-argument')
+    if dup_maps:
+        classes.append('on:duplicate-mapping')
+    if on_args:
+        classes.append('on:model-argument')
     classes += sorted({'atom:' + labels[a['id']] for a, _ in w_atoms})
     classes += sorted({'ctx:' + labels[a['id']][0] + ':' + c for a, c in w_atoms})
+    for a, c in w_atoms:
+        # a comparison of more than two operands / with a list: every operand decides whether it is `column <op> constant`
+        if a['op'] == 'between':
+            lo, hi = ['const' not in o for o in a['args'][1:]]
+            if lo or hi:
+                classes.append('where:between-non-constant-bound')
+                classes.append('between:' + ('both-bounds' if lo and hi else ('upper-bound' if hi else 'lower-bound')))
+                if c == 'top' and hi and not lo and 'col' in a['args'][0]:
+                    classes.append('between:column-const-nonconst:top-level')
+        if any('list' in o for o in a['args']):
+            classes.append('where:in-list-with-column')
     nonconj = any(c != 'top' for _, c in w_atoms)
     classes.append('where:none' if q.where is None else ('where:non-conjunctive' if nonconj else 'where:conjunction'))
     if any(it['k'] == 'sub' for it in items):
         classes.append('item:sub-select')
     if any(it.get('version') is not None for it in items):
         classes.append('item:model-version')
+    if any(it.get('project') for it in items):
+        classes.append('item:model-of-project2')
     if model_first:
         classes.append('order:model-first')
     elif any(items[k]['k'] != 'model' for k in range(models[0], len(items))):
@@ -635,6 +701,9 @@ def judge(case, col):
         if dup_cols and isinstance(e, PlanningException) and 'Multiple values' in str(e):
             # two different values for one argument: no plan can pass both (a select from the model is refused alike)
             return done([], ['refused', 'refused:duplicate-argument'])
+        if dup_maps and isinstance(e, PlanningException) and 'Multiple' in str(e):
+            # two different columns for one model column: no mapping can hold both
+            return done([], ['refused', 'refused:duplicate-mapping'])
         return done([findings.record('refused', type(e).__name__, gfeats, cfg, str(e)[:200], sql)], ['refused'])
     except RecursionError:
         col.excluded('recursion')
@@ -677,6 +746,8 @@ def judge(case, col):
             al = p.alias.parts[-1] if getattr(p, 'alias', None) is not None else None
             cand = [i for i in models if items[i].get('alias') == al
                     and [str(x) for x in p.parts] == q.written_parts(i)[(1 if items[i].get('qualified', True) else 0):]]
+            if len(cand) > 1:          # un-aliased models of one name in two projects: the step says which project
+                cand = [i for i in cand if s.namespace == q.project_name(i) and i not in step_of] or cand
             idx = cand[0] if len(cand) == 1 else None
             if idx is None:
                 rec('apply-target', 'predictor', [], f'apply step {s.step_num} applies {p.parts} (alias {al}): no model '
@@ -742,6 +813,7 @@ def judge(case, col):
         exp_params[mi] = (prm, ps, ps_key)
 
     typed = lambda d: {k: (type(v).__name__, v) for k, v in d.items()}
+    on_consumed = {}          # atom id of an ON clause -> did it become a column mapping / an argument of its model
 
     for mi in models:
         s = step_of.get(mi)
@@ -752,8 +824,8 @@ def judge(case, col):
         # (1) kind of step, namespace, input
         if type(s).__name__ != 'ApplyPredictorStep':
             rec('apply-steps', 'step-class', mfeat, f'{type(s).__name__} for a non-timeseries model in a join')
-        if s.namespace != q.proj:
-            rec('apply-target', 'namespace', mfeat, f'namespace {s.namespace!r}, expected {q.proj!r}')
+        if s.namespace != q.project_name(mi):
+            rec('apply-target', 'namespace', mfeat, f'namespace {s.namespace!r}, expected {q.project_name(mi)!r}')
         want = {1} if model_first else {j for j in range(len(items)) if j < mi}      # model first: 2 items, swapped
         got = leaves(s.dataframe)
         if len(want) >= 2:
@@ -773,6 +845,19 @@ def judge(case, col):
                     open_rd[o['col']] = k['const']
                 else:
                     exp_rd[o['col']] = k['const']
+        # ... and of the model's ON clause: demanded for an inner join (there ON and WHERE say the same); with LEFT JOIN
+        #     either reading is accepted (argument, or condition of the match), but consistently (join condition below)
+        jt_own = (items[own_join(mi)].get('join') or 'JOIN').upper()
+        on_src = set()
+        for aid, (m_, cname, cval, lab) in sorted(on_args.items()):
+            if m_ != mi:
+                continue
+            if jt_own in ('JOIN', 'INNER JOIN') and lab != 'mtarget2':
+                exp_rd[cname] = cval
+                on_src.add(cname)
+                classes.append('judged:on-argument')
+            else:
+                open_rd[cname] = cval
         got_rd = dict(s.row_dict or {})
         if exp_rd:
             classes.append('judged:row_dict-non-empty')
@@ -789,12 +874,19 @@ def judge(case, col):
                 continue
             if k2 not in exp_rd:
                 org = [(a, c) for a, c in w_atoms if any('col' in o and o['col'] == k2 for o in a['args'])]
-                feats = sorted({'atom:' + labels[a['id']] for a, _ in org} | {'ctx:' + c for _, c in org}) or ['atom:none']
+                feats = sorted({'atom:' + labels[a['id']] for a, _ in org} | {'ctx:' + c for _, c in org})
+                org = [(a, c) for j2 in sorted(on_atoms) for a, c in on_atoms[j2]
+                       if any('col' in o and o['col'] == k2 for o in a['args'])]
+                feats += sorted({'clause:on'} | {'atom:' + classify(a, q) for a, _ in org} | {'ctx:' + c for _, c in org}) if org else []
+                feats = feats or ['atom:none']
                 rec('row-dict', 'extra', feats, f'row_dict of {it["name"]} has {k2!r}: {got_rd[k2]!r} which is no '
                                                f'top-level `model.col = constant` conjunct of WHERE (expected {exp_rd})')
             elif k2 not in got_rd:
                 src = sorted({'atom:' + labels[a['id']] for a, c in w_atoms if labels[a['id']] in ('marg', 'mrev') and c == 'top'
                               and arg_of(a)[0]['of'] == mi and arg_of(a)[0]['col'] == k2})
+                if k2 in on_src:
+                    src = ['clause:on', 'join:' + jt_own] + sorted({'atom:' + lab for _, (m_, cn, _, lab) in on_args.items()
+                                                                    if m_ == mi and cn == k2})
                 rec('row-dict', 'missing', ['where:non-conjunctive' if nonconj else 'where:conjunction'] + src,
                     f'row_dict of {it["name"]} lacks {k2!r} (expected {exp_rd}, got {got_rd})')
             elif typed(exp_rd)[k2] != typed(got_rd)[k2]:
@@ -836,17 +928,23 @@ def judge(case, col):
             rec('partition', 'unexpected', mfeat, 'apply step inside a MapReduceStep without partition_size')
         # (5) columns_map
         exp_cm = {}
-        own_on = on_atoms[1] if model_first else on_atoms[mi]          # model first: the condition is written at the table
+        own_on = on_atoms[own_join(mi)]          # model first: the condition is written at the table
         if model_first and items[1].get('on') is not None:
             classes.append('on:model-first')
-        for a, c in own_on:
-            l, r = a['args'][0], a['args'][1] if len(a['args']) == 2 else None
-            if c == 'top' and a['op'] == '=' and r is not None and 'col' in l and 'col' in r:
-                if l['of'] == mi and r['of'] != mi:
-                    exp_cm[l['col']] = ('col', r['of'], r['col'])
-                elif r['of'] == mi and l['of'] != mi:
-                    exp_cm[r['col']] = ('col', l['of'], l['col'])
         got_cm = {k: ast_abs(v, q.resolve) for k, v in (s.columns_map or {}).items()}
+        for (m_, cname), grp in sorted(map_groups.items()):
+            if m_ != mi:
+                continue
+            vals = [x for _, x in grp]
+            if (m_, cname) in dup_maps and got_cm.get(cname) in vals:
+                exp_cm[cname] = got_cm[cname]          # two columns for one model column: one of them (the other one stays a condition)
+            else:
+                exp_cm[cname] = vals[-1]
+            for aid, x in grp:
+                on_consumed[aid] = got_cm.get(cname) == x
+        for aid, (m_, cname, cval, lab) in on_args.items():
+            if m_ == mi:
+                on_consumed[aid] = cname in got_rd and typed({cname: cval}) == typed({cname: got_rd[cname]})
         if exp_cm:
             classes.append('judged:columns_map-non-empty')
         if got_cm != exp_cm:
@@ -860,9 +958,48 @@ def judge(case, col):
                     feats.add('ctx:' + c)
                     feats.add('op:' + ('eq' if a['op'] == '=' else 'non-eq'))
                 feats.add('map:extra' if k2 not in exp_cm else ('map:missing' if k2 not in got_cm else 'map:value'))
+                if (mi, k2) in dup_maps:
+                    feats.add('on:duplicate-mapping')
             if model_first:
                 feats.add('order:model-first')
             rec('columns-map', 'mapping', sorted(feats), f'columns_map of {it["name"]} = {got_cm}, expected {exp_cm}')
+
+    # ---- (5, 2) what is left of the ON clauses: a conjunct that became a mapping / an argument is no condition any more,
+    #      every other one still is
+    join_steps = [s for s, _ in steps if type(s).__name__ == 'JoinStep']
+    for j in range(1, len(items)):
+        on = items[j].get('on')
+        if on is None:
+            continue
+        cand = [s for s in join_steps if model_first or leaves(s.right) == {j}]
+        if len(cand) != 1:
+            continue
+        classes.append('judged:join-condition')
+        got_at = {}
+        cond = cand[0].query.condition
+        jfeat = ['join:' + (items[j].get('join') or 'JOIN').upper(), 'on:model' if (model_first or items[j]['k'] == 'model') else 'on:data']
+        if not match(tree_abs(on, lambda a: ('ATOM', a['id'])), ast_abs(cond, q.resolve), got_at):
+            rec('join-condition', 'skeleton', jfeat, f'boolean structure of the ON clause of {q.item_text(j)} changed: '
+                                                     f'{cond.to_string() if cond is not None else None}')
+            continue
+        for a, c in on_atoms[j]:
+            g = got_at.get(a['id'])
+            feats = jfeat + ['ctx:' + c]
+            key = [k_ for k_, grp in map_groups.items() if any(aid == a['id'] for aid, _ in grp)]
+            if key:
+                feats.append('atom:mapping')
+                if key[0] in dup_maps:
+                    feats.append('on:duplicate-mapping')
+            if a['id'] in on_args:
+                feats += ['atom:' + on_args[a['id']][3], 'clause:on']
+            if on_consumed.get(a['id']):
+                if g != NEUTRAL:
+                    rec('join-condition', 'not-neutralised', feats, f'`{q.atom_text(a)}` became a column mapping / an argument '
+                        f'of the model and is still a join condition: {cond.to_string()}')
+            elif g != atom_abs(a):
+                site = 'neutralised' if (isinstance(g, tuple) and len(g) == 4 and g[2] == c_abs(0) and g[3] == c_abs(0)) else 'changed'
+                rec('join-condition', site, feats, f'`{q.atom_text(a)}` ({c}) of the ON clause of {q.item_text(j)} is neither '
+                    f'mapped nor passed to the model but became {g}: {cond.to_string()}')
 
     # ---- (2) the outer filter
     last = plan.steps[-1]
@@ -945,6 +1082,8 @@ def judge(case, col):
             classes.append('judged:pushed-from-' + (clause if clause == 'where' else 'on'))
             where_lab = classify(a, q)
             feats = [tfeat, 'atom:' + where_lab, 'ctx:' + (c if role == 'atom' else 'inside-atom')]
+            if a['op'] in ('between', 'in'):
+                feats.append('op:' + a['op'])
             only_this = atom_items(a) == {idx}
             if clause == 'where':
                 if not (role == 'atom' and c == 'top' and only_this):
@@ -1044,6 +1183,17 @@ def cases(draw):
 
     tabs = [it for it in items if it['k'] == 'table']
     mods = [it for it in items if it['k'] == 'model']
+    # the second project: a model of it; with two models rather often the model of the same name (other to_predict)
+    if len(mods) == 2 and chance(1, 3):
+        mods[1]['name'] = mods[0]['name']
+        other = pick(mods)
+        other['project'], other['qualified'] = 2, True
+        if not aliased:
+            mods[0]['qualified'] = mods[1]['qualified'] = True          # only the project tells them apart
+    else:
+        for it in mods:
+            if chance(1, 8):
+                it['project'], it['qualified'] = 2, True
     if not aliased and chance(1, 3):
         # un-aliased items whose names share a suffix (only a longer name tells them apart) / un-aliased versions
         variant = pick(['table-like-model', 'same-table-name', 'same-version', 'version'])
@@ -1086,12 +1236,19 @@ def cases(draw):
         if kind == 'marg':
             return {'id': i, 'op': '=', 'args': [c(pick(scope_m)), {'const': const(i, ('int', 'int', 'str', 'str', 'null', 'bool', 'float', 'neg'))}]}
         if kind == 'mtarget':
-            cands = [m for m in scope_m if MODELS[items[m]['name']]]
+            cands = [m for m in scope_m if names.to_predict(m)]
             if not cands:
                 return atom('marg', scope_d, scope_m)
             m = pick(cands)
-            more = MODELS[items[m]['name']][1:] if isinstance(MODELS[items[m]['name']], list) else []
-            return {'id': i, 'op': '=', 'args': [c(m, pick(['y', 'Y'] + more * 2)), {'const': const(i)}]}
+            tg = names.to_predict(m)
+            tg = list(tg) if isinstance(tg, list) else [tg]
+            return {'id': i, 'op': '=', 'args': [c(m, pick([tg[0].lower(), tg[0].upper()] + tg[1:] * 2)), {'const': const(i)}]}
+        if kind == 'myz':
+            # a column that is the target of some model of the catalog: of this one, of the other project's, of neither
+            a = [c(pick(scope_m), pick(['y', 'z', 'Y', 'Z'])), {'const': const(i)}]
+            if chance(1, 5):
+                a.reverse()
+            return {'id': i, 'op': '=', 'args': a}
         if kind == 'mrev':
             return {'id': i, 'op': '=', 'args': [{'const': const(i)}, c(pick(scope_m))]}
         if kind in ('mcmp', 'tconst'):
@@ -1108,6 +1265,30 @@ def cases(draw):
             return {'id': i, 'op': op, 'args': [c(of), {'const': const(i)}]}
         if kind == 'trev':
             return {'id': i, 'op': pick(CMP), 'args': [{'const': const(i)}, c(pick(scope_d))]}
+        if kind in ('between-x', 'in-x'):
+            # col BETWEEN <bound> AND <bound> / col IN (<element>, ...) where not every other operand is a constant
+            of = pick(scope_d * 3 + scope_m)
+
+            def bound(nm_):
+                sh = pick(['own', 'other', 'other', 'model', 'model', 'arith', 'fn', 'bare'])
+                others = [x for x in scope_d if x != of] or scope_m
+                if sh == 'own':
+                    return {'col': nm_, 'of': of, 'q': draw(st.integers(0, 2))}
+                if sh == 'other':
+                    return {'col': nm_, 'of': pick(others), 'q': draw(st.integers(0, 2))}
+                if sh == 'model':
+                    return {'col': nm_, 'of': pick(scope_m), 'q': draw(st.integers(0, 2))}
+                if sh == 'arith':
+                    return {'arith': pick(['+', '-']), 'x': {'col': nm_, 'of': pick([of] + others), 'q': 0}, 'y': {'const': i}}
+                if sh == 'fn':
+                    return {'fn': 'abs', 'x': {'col': nm_, 'of': pick([of] + others), 'q': 0}}
+                return {'fn': 'abs', 'x': {'const': -i}}          # a constant expression, not a Constant
+            k1, k2 = {'const': 100 + i}, {'const': 1100 + i}
+            if kind == 'in-x':
+                return {'id': i, 'op': 'in', 'args': [c(of), {'list': draw(st.permutations([k1, bound(f'd{i}')]))}]}
+            form = pick(['hi', 'hi', 'lo', 'both'])
+            return {'id': i, 'op': 'between', 'args': [c(of), bound(f'd{i}') if form != 'hi' else k1,
+                                                       bound(f'e{i}') if form != 'lo' else k2]}
         if kind == 'ttcol':
             return {'id': i, 'op': pick(CMP), 'args': [c(pick(scope_d)), d(pick(scope_d))]}
         if kind == 'mtcol':
@@ -1204,7 +1385,9 @@ def cases(draw):
     where = None
     n_atoms = pick([0, 1, 2, 2, 3, 3, 4, 5])
     if n_atoms:
-        kinds_w = ['marg'] * 5 + ['mtarget', 'mrev', 'mcmp', 'mtcol', 'fcol', 'arith'] + ['tconst'] * 4 + ['trev', 'ttcol']
+        kinds_w = ['marg'] * 5 + ['mtarget', 'myz', 'mrev', 'mcmp', 'mtcol', 'fcol', 'arith'] + ['tconst'] * 4 + ['trev', 'ttcol', 'between-x', 'between-x', 'in-x']
+        if names.twins():
+            kinds_w += ['myz'] * 6
         ats = [atom(pick(kinds_w), data_idx, model_idx) for _ in range(n_atoms)]
         margs = [a for a in ats if a['op'] == '=' and len(a['args']) == 2 and 'const' in a['args'][1]
                  and 'col' in a['args'][0] and a['args'][0]['of'] in model_idx and a['args'][0]['col'].lower() not in ('y', 'z')]
